@@ -195,14 +195,16 @@ DoEq(st, a, b, neg, ln) ==
 DoLt(st, a, b, ln) ==
     IF a[1] = "n" /\ b[1] = "n" THEN PushBool(st, a[2] < b[2])
     ELSE IF a[1] = "s" /\ b[1] = "s" THEN PushBool(st, BytesLess(a[2], b[2], 1))
-    ELSE IF a[1] = "rtmsg" \/ b[1] = "rtmsg" THEN Unmod(st, "compare fault text")
+    ELSE IF a[1] \in {"rtmsg", "anystr"} \/ b[1] \in {"rtmsg", "anystr"} THEN Unmod(st, "compare fault text")
+    ELSE IF TypeName(a) # TypeName(b) THEN Fault(st, ln)      \* luaV_lessthan: different types are an order error
     ELSE LET h == CompHandler(st, a, b, "__lt") IN
          IF h = Nil THEN Fault(st, ln) ELSE CallComp(st, h, a, b, FALSE, ln)
 
 DoLe(st, a, b, ln) ==
     IF a[1] = "n" /\ b[1] = "n" THEN PushBool(st, a[2] <= b[2])
     ELSE IF a[1] = "s" /\ b[1] = "s" THEN PushBool(st, ~BytesLess(b[2], a[2], 1))
-    ELSE IF a[1] = "rtmsg" \/ b[1] = "rtmsg" THEN Unmod(st, "compare fault text")
+    ELSE IF a[1] \in {"rtmsg", "anystr"} \/ b[1] \in {"rtmsg", "anystr"} THEN Unmod(st, "compare fault text")
+    ELSE IF TypeName(a) # TypeName(b) THEN Fault(st, ln)
     ELSE LET h == CompHandler(st, a, b, "__le") IN
          IF h # Nil THEN CallComp(st, h, a, b, FALSE, ln)
          ELSE LET h2 == CompHandler(st, b, a, "__lt") IN     \* a <= b  ==  not (b < a)
@@ -485,7 +487,8 @@ Builtin(N, st, name, a, multi, ln) ==
             ELSE LET v == TGet(st.heap[a1[2]].kv, Num(a2[2] + 1)) IN
                  IF v = Nil THEN RetV(st, <<Nil>>, multi) ELSE RetV(st, <<Num(a2[2] + 1), v>>, multi))
       [] name = "setmetatable" ->
-           (IF a1[1] # "t" \/ n < 2 \/ ~(a2[1] \in {"nil", "t"}) THEN Fault(st, ln)
+           (IF n >= 2 /\ a2[1] \in {"nil", "t"} /\ ~(a1[1] \in {"t", "nil"}) THEN Unmod(st, "setmetatable on a non-table (gopher-lua extension)")
+            ELSE IF a1[1] # "t" \/ n < 2 \/ ~(a2[1] \in {"nil", "t"}) THEN Fault(st, ln)
             ELSE IF MetaField(st, a1, "__metatable") # Nil THEN Fault(st, ln)
             ELSE RetV([st EXCEPT !.heap[a1[2]].mt = IF a2 = Nil THEN 0 ELSE a2[2]], <<a1>>, multi))
       [] name = "getmetatable" ->
@@ -497,11 +500,11 @@ Builtin(N, st, name, a, multi, ln) ==
       [] name = "pcall" ->
            (IF n = 0 THEN Fault(st, ln)
             ELSE CallValue([st EXCEPT !.kont = Append(@, [w |-> "pmark", m |-> multi, vh |-> Len(st.vals)])],
-                           a1, SubSeq(a, 2, n), TRUE, ln))
+                           a1, SubSeq(a, 2, n), TRUE, NoPos))
       [] name = "xpcall" ->
            (IF n < 2 THEN Fault(st, ln)
             ELSE CallValue([st EXCEPT !.kont = Append(@, [w |-> "xpmark", m |-> multi, vh |-> Len(st.vals), h |-> a2, inh |-> FALSE])],
-                           a1, <<>>, TRUE, ln))
+                           a1, <<>>, TRUE, NoPos))
       [] name = "error" ->
            (IF n = 0 THEN Fault(st, ln)
             ELSE LET lv == IF a2 = Nil THEN Num(1) ELSE a2 IN
